@@ -729,7 +729,7 @@ import json as _json
 import os as _os
 
 SVC = ["c1:s1", "c1:s2", "c2:s1", "c2:s3", "c4:s1", "c3:s1"]
-BLACKLIST = {("c1:s2", "c3:s1")}       # (source, destination) pairs blocked by the destination's blacklist in the fixed world
+BLACKLIST = {("c1:s2", "c3:s1"), ("9999:c6:s2", "c4:s1")}       # (source, destination) pairs blocked by the destination's blacklist in the fixed world
 
 
 def load_lifecycle():
@@ -755,6 +755,18 @@ class LcGen(GovGen):
 
     def ibtp(self):
         r = self.r
+        if getattr(self, "hub", False) and r.random() < 0.3:
+            # world option hub=1: a request relayed from another BitXHub (9999 is registered, 7777 is not; c4:s1 blocks 9999:c6:s2)
+            f = r.choice(["9999:c6:s2", "9999:c6:s2", "9999:c5:s1", "7777:c5:s1"])
+            t = r.choice(["c4:s1", "c4:s1", "c2:s1", "c1:s1"])
+            i = self.idx.get((f, t), 1)
+            self.observe(t)
+            self.ops.append(f"block ibtp ca9 {f} {t} {i} req 0 - msig2")
+            self.observe(t)
+            self.idx[(f, t)] = i + 1
+            self.ops.append(f"q status {f}-1356:{t}-{i}")
+            self.tags.add("ibtp-probe:from-another-hub")
+            return
         f, t = r.sample(SVC, 2)
         if self.dyn and r.random() < 0.4:
             # a service registered during this history as source or destination
@@ -1308,7 +1320,8 @@ def gen_c16(rng, n, tier):
         r = _r.Random(rng.getrandbits(64))
         g = LcGen(r)
         g.tags = {"c16"}
-        g.ops.append(f"world audit={r.choice([0, 0, 1])} price=1")
+        g.hub = r.random() < 0.25
+        g.ops.append(f"world audit={r.choice([0, 0, 1])} price=1" + (" hub=1" if g.hub else ""))
         for s in SVC:
             g.observe(s)
         k0 = r.random()
@@ -1436,11 +1449,20 @@ def mon_c16(h, obs):
             sa = set(avail.get("service", ["available"]))
             aa = set(avail.get("appchain", ["available"]))
             fs, ts = status.get(("service", f)), status.get(("service", t), "unavailable")
-            fresh = all(blocks_since.get(("service", x), 9) <= 1 for x in (f, t))
-            if fs is None or not fresh:
-                continue
+            fresh = all(blocks_since.get(("service", x), 9) <= 1 for x in (f, t) if x.count(":") == 1)
             ok = rc.startswith("S:")
             ret = rc.split(":")[1] if ":" in rc else ""
+            if f.count(":") == 2 and f.split(":")[0] != "1356":
+                # relayed from another BitXHub: usable as a source iff that hub is a registered, available relay chain here
+                # (world option hub=1: 9999 is, nothing else)
+                if " hub=1" in h.ops[0] and f.startswith("9999:"):
+                    fs = "available"
+                else:
+                    if ok:
+                        hits.append(Hit("C16/request-from-unregistered-hub-accepted", f"request {f}->{t} accepted ({rc}) although BitXHub {f.split(':')[0]} is not registered here", detail=op))
+                    continue
+            if fs is None or not fresh:
+                continue
             if fs not in sa and ok:
                 hits.append(Hit("C16/unavailable-source-accepted", f"request {f}->{t} accepted ({rc}) while the source service is {fs}", detail=op))
             dst_bad = ts not in sa or (f, t) in blacklist
